@@ -120,7 +120,31 @@ def run(ctx, rep):
     bailb = [b for b, n in enumerate(c.bname) if n == 'bail']
     ok = len(cleanup) == 1 and bool(bailb) and c.bdominates(bailb[0], cleanup[0].block)
     rep.check(ok, 'R-C07-6', 'state_check_process: created-but-unfinished files are removed after bail (every exit path)', cleanup[0].loc() if cleanup else c.file, '', function='state_check_process', construct='cleanup created')
+    rule_created_reset(P, rep, 'R-C07-6c')
     sc = P.fn('state_check')
     rep.analysed(sc)
     pt = list(sc.calls('parity_truncate'))
     rep.check(bool(pt), 'R-C07-6', 'state_check: parity_truncate to the valid size when fixing', sc.file, '%d sites' % len(pt), function='state_check', construct='parity truncate')
+
+
+def rule_created_reset(P, rep, rid):
+    """the flag that decides the end-of-fix removal is produced by handle_create: it must be reset before every open()"""
+    hc = P.fn('handle_create')
+    rep.analysed(hc)
+    cst = [i for i in hc.all_insts() if i.op == 'store' and hc.expr(i.ops[1]) == '&handle->created']
+    opens = list(hc.calls('open'))
+    zero = [i for i in cst if hc.const_of(i.ops[0]) == 0]
+    okc = bool(zero) and bool(opens) and all(hc.must_pass(o, zero) for o in opens)
+    rep.rule(rid, 'handle_create resets handle->created before opening, so FILE_IS_CREATED (which lets fix remove the file on exit) means "created by this call"', 1)
+    rep.check(okc, rid, 'handle_create: created = 0 precedes every open()', hc.file, '%d resetting stores, %d opens' % (len(zero), len(opens)), function='handle_create', construct='created reset')
+    # and state_check_process derives FILE_IS_CREATED only from that flag, right after handle_create
+    c = P.fn('state_check_process')
+    sets = [x for x in c.calls('file_flag_set') if c.const_of(x.ops[1]) is not None]
+    hcs = list(c.calls('handle_create'))
+    from ..guards import guards_of
+    okg = False
+    for x in sets:
+        gs = guards_of(c, x)
+        if any('created' in a_ and p_ for a_, p_ in gs) and hcs and c.dominates(hcs[0], x):
+            okg = True
+    rep.check(okg, rid, 'state_check_process: FILE_IS_CREATED set only under handle[j].created after handle_create', c.file, '', function='state_check_process', construct='created flag source')
